@@ -150,7 +150,197 @@ def gen_c32(notes: list[str]) -> list[str]:
     return L
 
 
-GENERATORS: list[Callable[[list[str]], list[str]]] = [gen_c32]
+
+# --------------------------------------------------------------------------
+# C05/C06/C07 — retry building blocks: the arithmetic/logic bodies are translated
+
+
+class _Untranslatable(Exception):
+    pass
+
+
+def _py2lean(e: ast.AST, nat_names: set[str], int_names: set[str]) -> str:
+    """Translate a small Python expression into a Lean term over Rat/Bool."""
+    def T(x: ast.AST) -> str:
+        return _py2lean(x, nat_names, int_names)
+
+    if isinstance(e, ast.Constant):
+        if isinstance(e.value, bool):
+            return "true" if e.value else "false"
+        if isinstance(e.value, (int, float)):
+            if e.value != int(e.value):
+                raise _Untranslatable(f"non-integral constant {e.value}")
+            return f"({int(e.value)} : Rat)"
+        raise _Untranslatable(ast.dump(e))
+    if isinstance(e, ast.Attribute) and isinstance(e.value, ast.Name) and e.value.id == "self":
+        return f"{e.attr}_"
+    if isinstance(e, ast.Name):
+        if e.id in nat_names:
+            return f"({e.id} : Rat)"
+        if e.id in int_names:
+            return f"({e.id} : Rat)"
+        return e.id
+    if isinstance(e, ast.BinOp):
+        if isinstance(e.op, ast.Pow):
+            if isinstance(e.right, ast.Name) and e.right.id in nat_names:
+                return f"({T(e.left)} ^ {e.right.id})"
+            raise _Untranslatable("power with non-Nat exponent")
+        op = {ast.Add: "+", ast.Sub: "-", ast.Mult: "*"}.get(type(e.op))
+        if op is None:
+            raise _Untranslatable(ast.dump(e.op))
+        return f"({T(e.left)} {op} {T(e.right)})"
+    if isinstance(e, ast.Compare) and len(e.ops) == 1:
+        op = {ast.GtE: "≥", ast.LtE: "≤", ast.Gt: ">", ast.Lt: "<"}.get(type(e.ops[0]))
+        if op is None:
+            raise _Untranslatable(ast.dump(e.ops[0]))
+        return f"decide ({T(e.left)} {op} {T(e.comparators[0])})"
+    if isinstance(e, ast.Call):
+        f = e.func
+        if isinstance(f, ast.Name) and f.id in ("max", "min") and len(e.args) == 2:
+            return f"({f.id} {T(e.args[0])} {T(e.args[1])})"
+        if isinstance(f, ast.Attribute) and f.attr == "uniform" and len(e.args) == 2:
+            a, b = T(e.args[0]), T(e.args[1])
+            return f"({a} + u * ({b} - {a}))"
+        if isinstance(f, ast.Name) and f.id == "_capped_exponential" and len(e.args) == 4:
+            att = e.args[2]
+            if not (isinstance(att, ast.Name) and att.id in nat_names):
+                raise _Untranslatable("_capped_exponential attempts argument")
+            return f"(cappedExponential {T(e.args[0])} {T(e.args[1])} {att.id} {T(e.args[3])})"
+        if isinstance(f, ast.Name) and f.id in ("any", "all", "sum") and len(e.args) == 1 and isinstance(e.args[0], ast.GeneratorExp):
+            g = e.args[0]
+            if len(g.generators) != 1 or g.generators[0].ifs:
+                raise _Untranslatable("generator shape")
+            var = g.generators[0].target
+            it = g.generators[0].iter
+            if not (isinstance(var, ast.Name) and isinstance(it, ast.Attribute) and isinstance(it.value, ast.Name) and it.value.id == "self"):
+                raise _Untranslatable("generator shape")
+            body = g.elt
+            if not (isinstance(body, ast.Call) and isinstance(body.func, ast.Name) and body.func.id == var.id):
+                raise _Untranslatable("generator body")
+            args = " ".join(a.id for a in body.args if isinstance(a, ast.Name))
+            kws = " ".join((k.value.id if isinstance(k.value, ast.Name) else "?") for k in body.keywords if k.arg != "seed")
+            call = f"(f {args} {kws} u)" if f.id == "sum" else f"(f {args} {kws})"
+            call = re.sub(r"\s+", " ", call).replace(" )", ")")
+            if f.id == "sum":
+                return f"(({it.attr}_.map (fun f => {call})).foldl (· + ·) 0)"
+            return f"({it.attr}_.{f.id} (fun f => {call}))"
+        raise _Untranslatable(ast.dump(e)[:80])
+    raise _Untranslatable(ast.dump(e)[:80])
+
+
+def _translate_callable(cls: ast.ClassDef | ast.FunctionDef, method: str | None, nat_names: set[str], int_names: set[str],
+                        skip_assign: set[str]) -> str:
+    fn = cls
+    if method is not None:
+        fn = next((n for n in cls.body if isinstance(n, ast.FunctionDef) and n.name == method), None)  # type: ignore[union-attr]
+        if fn is None:
+            raise _Untranslatable(f"no {method}")
+    lets: list[str] = []
+    body = [n for n in fn.body if not (isinstance(n, ast.Expr) and isinstance(n.value, ast.Constant))]  # drop docstrings
+    if len(body) == 1 and isinstance(body[0], ast.Try):
+        body = body[0].body  # float overflow guard: the except branch is outside exact arithmetic
+    for st in body:
+        if isinstance(st, ast.Assign) and isinstance(st.targets[0], ast.Name):
+            if st.targets[0].id in skip_assign:
+                continue
+            lets.append(f"let {st.targets[0].id} := {_py2lean(st.value, nat_names, int_names)}; ")
+        elif isinstance(st, ast.Return):
+            return "".join(lets) + _py2lean(st.value, nat_names, int_names)
+        else:
+            raise _Untranslatable(f"statement {type(st).__name__}")
+    raise _Untranslatable("no return")
+
+
+RP_SPECS = [
+    # (python name, lean name, params, signature tail, method, result type)
+    ("_capped_exponential", "cappedExponential", "(multiplier exp_base : Rat) (attempts : Nat) (cap : Rat)", None, "Rat"),
+    ("wait_fixed", "waitFixed", "(wait_ : Rat) (attempts : Nat) (u : Rat)", "__call__", "Rat"),
+    ("wait_exponential", "waitExponential", "(multiplier_ exp_base_ max_ min_ : Rat) (attempts : Nat) (u : Rat)", "__call__", "Rat"),
+    ("wait_incrementing", "waitIncrementing", "(start_ increment_ max_ : Rat) (attempts : Nat) (u : Rat)", "__call__", "Rat"),
+    ("wait_random", "waitRandom", "(min_ max_ : Rat) (attempts : Nat) (u : Rat)", "__call__", "Rat"),
+    ("wait_exponential_jitter", "waitExponentialJitter", "(initial_ exp_base_ max_ jitter_ : Rat) (attempts : Nat) (u : Rat)", "__call__", "Rat"),
+    ("wait_random_exponential", "waitRandomExponential", "(multiplier_ exp_base_ max_ min_ : Rat) (attempts : Nat) (u : Rat)", "__call__", "Rat"),
+    ("wait_combine", "waitCombine", "(strategies_ : List (Nat → Rat → Rat)) (attempts : Nat) (u : Rat)", "__call__", "Rat"),
+    ("stop_after_attempt", "stopAfterAttempt", "(max_attempt_number_ : Rat) (attempts : Nat) (elapsed_time upcoming_sleep : Rat)", "__call__", "Bool"),
+    ("stop_after_delay", "stopAfterDelay", "(max_delay_ : Rat) (attempts : Nat) (elapsed_time upcoming_sleep : Rat)", "__call__", "Bool"),
+    ("stop_before_delay", "stopBeforeDelay", "(max_delay_ : Rat) (attempts : Nat) (elapsed_time upcoming_sleep : Rat)", "__call__", "Bool"),
+    ("stop_any", "stopAny", "(stops_ : List (Nat → Rat → Rat → Bool)) (attempts : Nat) (elapsed_time upcoming_sleep : Rat)", "__call__", "Bool"),
+    ("stop_all", "stopAll", "(stops_ : List (Nat → Rat → Rat → Bool)) (attempts : Nat) (elapsed_time upcoming_sleep : Rat)", "__call__", "Bool"),
+    ("stop_never", "stopNever", "(attempts : Nat) (elapsed_time upcoming_sleep : Rat)", "__call__", "Bool"),
+    ("retry_any", "retryAny", "(retries_ : List (Nat → Bool)) (error : Nat)", "__call__", "Bool"),
+    ("retry_all", "retryAll", "(retries_ : List (Nat → Bool)) (error : Nat)", "__call__", "Bool"),
+    ("retry_always", "retryAlways", "(error : Nat)", "__call__", "Bool"),
+    ("retry_never", "retryNever", "(error : Nat)", "__call__", "Bool"),
+]
+
+
+def gen_retry_policy(notes: list[str]) -> list[str]:
+    rel = "packages/llama-index-workflows/src/workflows/retry_policy.py"
+    tree = _parse(rel)
+    L = ["namespace Gen.RP"]
+    for (py, lean, params, method, rty) in RP_SPECS:
+        node = _func(tree, py)
+        try:
+            if node is None:
+                raise _Untranslatable("not found")
+            body = _translate_callable(node, method, {"attempts"}, set(), {"rng"})  # type: ignore[arg-type]
+        except _Untranslatable as ex:
+            notes.append(f"translate: retry_policy.{py}: {ex}")
+            body = "(0 : Rat)" if rty == "Rat" else "false"
+        L.append(f"def {lean} {params} : {rty} := {body}")
+    # operator sugar: `a | b`, `a & b`, `a + b`
+    sugar = {}
+    for base, ops in (("_RetryConditionBase", ("__and__", "__or__")), ("_StopConditionBase", ("__and__", "__or__")),
+                      ("_WaitStrategyBase", ("__add__",))):
+        cls = _func(tree, base)
+        for op in ops:
+            target = None
+            if cls is not None:
+                m = next((n for n in cls.body if isinstance(n, ast.FunctionDef) and n.name == op), None)  # type: ignore[union-attr]
+                if m is not None:
+                    ret = next((n for n in ast.walk(m) if isinstance(n, ast.Return)), None)
+                    if ret is not None and isinstance(ret.value, ast.Call) and isinstance(ret.value.func, ast.Name):
+                        args = [a.id for a in ret.value.args if isinstance(a, ast.Name)]
+                        target = f"{ret.value.func.id}({','.join(args)})"
+            sugar[f"{base}.{op}"] = target or "<missing>"
+    for k, v in sugar.items():
+        L.append(f"def sugar_{k.replace('.', '_').strip('_')} : String := {lean_str(v)}")
+    # wait_chain index expression and the composed policy's next()
+    chain = _func(tree, "wait_chain")
+    idx_src = "<missing>"
+    if chain is not None:
+        for n in ast.walk(chain):
+            if isinstance(n, ast.Assign) and isinstance(n.targets[0], ast.Name) and n.targets[0].id == "idx":
+                idx_src = ast.unparse(n.value)
+    L.append(f"def waitChainIndex : String := {lean_str(idx_src)}")
+    comp = _func(tree, "_ComposableRetryPolicy")
+    nxt = None
+    if comp is not None:
+        nxt = next((n for n in comp.body if isinstance(n, ast.FunctionDef) and n.name == "next"), None)  # type: ignore[union-attr]
+    nxt_src = "<missing>"
+    if nxt is not None:
+        body = [n for n in nxt.body if not (isinstance(n, ast.Expr) and isinstance(n.value, ast.Constant))]
+        nxt_src = " ; ".join(ast.unparse(n).replace("\n", " ") for n in body)
+        nxt_src = re.sub(r"\s+", " ", nxt_src)
+    L.append(f"def composedNext : String := {lean_str(nxt_src)}")
+    # how the control loop calls the policy
+    cl = _parse("packages/llama-index-workflows/src/workflows/runtime/control_loop.py")
+    call_src = "<missing>"
+    fails_src = "<missing>"
+    psr = _func(cl, "_process_step_result_tick")
+    if psr is not None:
+        for n in ast.walk(psr):
+            if isinstance(n, ast.Assign) and isinstance(n.targets[0], ast.Name) and n.targets[0].id == "failures":
+                fails_src = ast.unparse(n.value)
+            if isinstance(n, ast.Call) and isinstance(n.func, ast.Attribute) and n.func.attr == "next":
+                call_src = ", ".join(ast.unparse(a) for a in n.args)
+    L.append(f"def loopFailures : String := {lean_str(fails_src)}")
+    L.append(f"def loopNextArgs : String := {lean_str(call_src)}")
+    L.append("end Gen.RP")
+    return L
+
+
+GENERATORS: list[Callable[[list[str]], list[str]]] = [gen_c32, gen_retry_policy]
 
 
 def generate() -> list[str]:
@@ -158,6 +348,7 @@ def generate() -> list[str]:
     lines = [
         "/- GENERATED by /verif/harness/translate.py from /repo's current sources.",
         "   Do not edit; regenerated on every check run. -/",
+        "set_option linter.unusedVariables false",
         "",
     ]
     for g in GENERATORS:
